@@ -60,14 +60,14 @@ Section Lab.
 
   (* C06: whatever a run left in the store, a later run (same graph, bust_cache off, any request, any oracle)
      treats as cached: it is submitted as a load, contributes no dependencies, and its outcome is the stored value *)
-  Theorem second_run_loads c st rq cnt t v : wf c -> (forall u, In u rq -> u < ntasks c) -> lookup st t = Some v ->
-    let c2 := with_run c st rq false cnt in
+  Theorem second_run_loads c st rq cnt fails t v : wf c -> (forall u, In u rq -> u < ntasks c) -> lookup st t = Some v ->
+    let c2 := with_run c st rq false cnt fails in
     use_cache_in c2 (pre c2) t = true /\ pdeps_of c2 t = [] /\ ref c2 t = Some v.
   Proof.
     intros Hwf Hrq Hl. cbn zeta.
-    assert (Hu : use_cache_in (with_run c st rq false cnt) st t = true).
+    assert (Hu : use_cache_in (with_run c st rq false cnt fails) st t = true).
     { unfold use_cache_in, has. cbn [with_run bust negb andb]. now rewrite Hl. }
-    assert (Hwf2 : wf (with_run c st rq false cnt)).
+    assert (Hwf2 : wf (with_run c st rq false cnt fails)).
     { destruct Hwf as (A & B & C). repeat split; auto. }
     split; [exact Hu|]. split.
     - unfold pdeps_of. cbn [with_run pre]. now rewrite Hu.
